@@ -93,6 +93,12 @@ def corpus(tier):
                     reach={'bob': {'direct': reach, 'delay': delay, 'pierce': reach in ('blackhole',)}},
                     stop={'transfer': 0, 'op': op, 'k': k, 'plus_iter': 0, 'fallback_at': 25.0},
                     chunk_delay=0.01))
+    # an upload aborted by the user, then its downloader is blocked and unblocked again
+    for k in (0, 2, 4, 6, 8, 99):
+        for flap in ({'after': 0.5, 'for': 3.0}, {'after': 5.0, 'for': 10.0}):
+            out.append(base_plan(transfers=[{'id': 0, 'dir': 'up', 'peer': 'bob', 'size': 40000, 'at': 0.0}],
+                                 stop={'transfer': 0, 'op': 'abort', 'k': k, 'plus_iter': 0, 'fallback_at': 25.0},
+                                 block_flap=flap, chunk_delay=0.01))
     # the uploader's file connection is under way when the stop lands (it arrives, with its ticket, after the stop)
     for op in OPS:
         for late in (1.0, 5.0, 70.0):
@@ -211,6 +217,8 @@ def generate(rng, index, tier):
     if target['dir'] == 'down' and rng.random() < 0.2:
         plan['offer_on_stop'] = rng.choice([0.0, 0.001, 0.05, 0.3])
         plan['slow_listener'] = {'state': rng.choice(('CLOSING', 'CLOSED')), 'delay': rng.choice([0.01, 0.1, 0.5])}
+    if target['dir'] == 'up' and plan['stop']['op'] == 'abort' and rng.random() < 0.3:
+        plan['block_flap'] = {'after': rng.choice([0.0, 0.5, 5.0, 20.0]), 'for': rng.choice([0.5, 3.0, 10.0, 30.0])}
     if target['dir'] == 'up' and rng.random() < 0.4:
         then = rng.choice(('slow', 'blackhole', 'refused', None))
         plan['ul_break'] = {'after': rng.choice([1, 4096, 30000]), 'requeue_delay': rng.choice([0.0, 0.3, 2.0, 12.0]),
@@ -635,6 +643,17 @@ def _run(world: World, plan):
         t0 = call.returned_at
         tr = objs[target_spec['id']]
         await feed
+        flap = plan.get('block_flap')
+        if flap and target_spec['dir'] == 'up' and plan['stop']['op'] == 'abort':
+            # the application blocks the downloader for uploads and lifts the block again: an upload the user aborted
+            # stays what it is (reason and all) and is not offered again
+            from aioslsk.user.model import BlockingFlag
+            settings = alice.settings
+            await asyncio.sleep(float(flap.get('after', 5.0)))
+            world.net.fired['user_blocked_then_unblocked_after_abort'] += 1
+            settings.users.blocked = dict(settings.users.blocked, **{target_spec['peer']: BlockingFlag.UPLOADS})
+            await asyncio.sleep(float(flap.get('for', 10.0)))
+            settings.users.blocked = {u: f for u, f in settings.users.blocked.items() if u != target_spec['peer']}
         await asyncio.sleep(max(W - (loop.time() - t0), 1.0))
         results['snap1'] = {f: getattr(tr, f, None) for f in FIELDS}
         if plan.get('late_f') is not None and target_spec['dir'] == 'down':
